@@ -75,6 +75,8 @@ structure EraseInv (f₀ : Nat → Cell) (m : Nat) (v : View) : Prop where
   flash : v.flash = fun q => if q < m then .erased else f₀ q
   erased : v.erasedLog = List.range m
   written : v.writtenLog = []
+  mon : v.mon = Monitors.clean
+  ptr : v.ptr = flashBase
 
 /-- at the head of the write loop, before page `m` -/
 structure WriteInv (h : HostCfg) (f₀ : Nat → Cell) (m : Nat) (v : View) : Prop where
@@ -85,6 +87,8 @@ structure WriteInv (h : HostCfg) (f₀ : Nat → Cell) (m : Nat) (v : View) : Pr
   flash : v.flash = fun q => if q < m then .data (h.chunk q) else if q < h.pages then .erased else f₀ q
   erased : v.erasedLog = List.range h.pages
   written : v.writtenLog = List.range m
+  mon : v.mon = Monitors.clean
+  ptr : v.ptr = pageAddr (m - 1)
 
 /-- a generic GETSTATUS + sleep round trip (used by the prelude) -/
 theorem status_roundtrip {c : Config} {pcS pcA : PC} {v' : View} {s' t' st' : Nat}
@@ -134,7 +138,7 @@ theorem prelude (f₀ : Nat → Cell) (hfit : h.fw.length ≤ pageSize * h.pageC
     generalize steps h 2 c0 = c2 at ha2
     have hn3 : next h c2.pc c2.resp = (.loopErase 0, .tau) := by rw [ha2.pc]; simp [next, stERROR]
     rw [step_tau ha2.exit hn3]
-    exact ⟨_, ⟨rfl, ha2.exit, ha2.out, ha2.dev⟩, ⟨Or.inl rfl, rfl, rfl, rfl, by funext q; simp, rfl, rfl⟩⟩
+    exact ⟨_, ⟨rfl, ha2.exit, ha2.out, ha2.dev⟩, ⟨Or.inl rfl, rfl, rfl, rfl, by funext q; simp, rfl, rfl, rfl, rfl⟩⟩
   · -- the device starts in dfuERROR: CLRSTATUS, GETSTATUS again
     simp only [he, if_false] at hs0
     obtain ⟨t, hr, hs1⟩ := getStatus_idle hs0 rfl (by simp)
@@ -161,7 +165,7 @@ theorem prelude (f₀ : Nat → Cell) (hfit : h.fw.length ≤ pageSize * h.pageC
     generalize steps h 2 c3 = c5 at ha5
     have hn6 : next h c5.pc c5.resp = (.loopErase 0, .tau) := by rw [ha5.pc]; simp [next]
     rw [step_tau ha5.exit hn6]
-    exact ⟨_, ⟨rfl, ha5.exit, ha5.out, ha5.dev⟩, ⟨Or.inl rfl, rfl, rfl, rfl, by funext q; simp, rfl, rfl⟩⟩
+    exact ⟨_, ⟨rfl, ha5.exit, ha5.out, ha5.dev⟩, ⟨Or.inl rfl, rfl, rfl, rfl, by funext q; simp, rfl, rfl, rfl, rfl⟩⟩
 
 /-! ### the erase loop -/
 
@@ -179,7 +183,7 @@ theorem erase_loop (f₀ : Nat → Cell) (hfit : h.pages ≤ h.pageCount) (hsm :
     have := erase_iter ha' (by omega) (by omega) hsm hi'.pending hi'.state hi'.status hfm
     rw [hi'.opIdx] at this
     rw [costFrom_succ_right, steps_add, Nat.zero_add]
-    refine ⟨_, this, ⟨Or.inr rfl, hi'.status, rfl, rfl, ?_, ?_, hi'.written⟩⟩
+    refine ⟨_, this, ⟨Or.inr rfl, hi'.status, rfl, rfl, ?_, ?_, hi'.written, hi'.mon, hi'.ptr⟩⟩
     · funext q
       simp only [setCell, hi'.flash]
       by_cases h1 : q = m
@@ -197,7 +201,7 @@ theorem erase_to_write {f₀ : Nat → Cell} {c : Config} {v : View}
     At h s (steps h 1 c) (.loopWrite 0) v 0 ∧ WriteInv h f₀ 0 v := by
   have hn : next h c.pc c.resp = (.loopWrite 0, .tau) := by rw [ha.pc]; simp [next]
   rw [steps_one, step_tau ha.exit hn]
-  refine ⟨⟨rfl, ha.exit, ha.out, ha.dev⟩, ⟨hi.state, hi.status, hi.pending, by simp [hi.opIdx], ?_, hi.erased, by simp [hi.written]⟩⟩
+  refine ⟨⟨rfl, ha.exit, ha.out, ha.dev⟩, ⟨hi.state, hi.status, hi.pending, by simp [hi.opIdx], ?_, hi.erased, by simp [hi.written], hi.mon, by simp [hi.ptr, pageAddr]⟩⟩
   rw [hi.flash]; funext q; simp
 
 /-! ### the write loop -/
@@ -209,7 +213,7 @@ theorem write_iter {f₀ : Nat → Cell} {c : Config} {v : View} {m : Nat}
     ∃ v', At h s (steps h (writeCost (s.op (h.pages + 2 * m)) (s.op (h.pages + 2 * m + 1))) c) (.loopWrite (m + 1)) v' 0 ∧
       WriteInv h f₀ (m + 1) v' := by
   have hf1' : (s.op v.opIdx).fault % 256 = 0 := by rw [hi.opIdx]; exact hf1
-  obtain ⟨st, ha1⟩ := write_iter_addr ha hm (by omega) hsm hi.pending hi.state hi.status hf1'
+  have ha1 := write_iter_addr ha hm (by omega) hsm hi.pending hi.state hi.status hf1'
   rw [hi.opIdx] at ha1
   have her : v.flash m = .erased := by rw [hi.flash]; simp [hm]
   have := write_iter_data ha1 (by omega) rfl rfl hi.status rfl (chunk_length hm) her
@@ -218,7 +222,7 @@ theorem write_iter {f₀ : Nat → Cell} {c : Config} {v : View} {m : Nat}
       (2 * (s.op (h.pages + 2 * m)).busy.length + 3) + (2 * (s.op (h.pages + 2 * m + 1)).busy.length + 4) := by
     simp [writeCost]; omega
   rw [e, steps_add]
-  refine ⟨_, this, ⟨Or.inr rfl, hi.status, rfl, by show h.pages + 2 * m + 1 + 1 = h.pages + 2 * (m + 1); omega, ?_, hi.erased, by simp [hi.written, List.range_succ]⟩⟩
+  refine ⟨_, this, ⟨Or.inr rfl, hi.status, rfl, by show h.pages + 2 * m + 1 + 1 = h.pages + 2 * (m + 1); omega, ?_, hi.erased, by simp [hi.written, List.range_succ], hi.mon, by simp⟩⟩
   funext q
   simp only [setCell, hi.flash]
   by_cases h1 : q = m
